@@ -98,6 +98,13 @@ pub fn gen_call(rng: &mut Rng, key: (bool, u32), refuse: bool, total: Option<usi
                     if rng.chance(1, 2) { 8 + rng.below(5) as usize } else { rng.pick(&[8usize, 9, 31, 32, 63, 64, 65, 71, 72, 127, 128, 135, 192, 199, 255, 256, 257, 300]) }
                 } else { rng.below(8) as usize };
                 lists = (0..n).map(|_| rng.bytes(4)).collect();
+                // one contiguous run of EID ranges of one kind behind one address (what a bus owner listing a
+                // bridge's pool sends): too many entries stay too many, however neatly they could be merged
+                if n >= 2 && rng.chance(1, 3) {
+                    let ty = rng.pick(&[3u8, 1, 3, 0x43, 2]); let addr = rng.byte(); let mut first = rng.below(40) as u8;
+                    for e in lists.iter_mut() { let sz = 1 + rng.below(6) as u8; *e = vec![ty, sz, first, addr]; first = first.wrapping_add(sz); }
+                    return Call { req, id, nums, lists };
+                }
                 // related neighbours: consecutive EID ranges of one kind behind one physical address, duplicates,
                 // an entry repeated later — an encoder must carry the entries as given, not normalise them
                 if n >= 2 && rng.chance(1, 2) {
